@@ -107,6 +107,38 @@ theorem tdiv_nonpos (len U : Int) (h : len ≤ 0) : Int.tdiv len U = -((-len) / 
   rw [Int.neg_neg] at this
   rw [this, Int.tdiv_eq_ediv_of_nonneg hn]
 
+/-! ### naive endpoints -/
+
+theorem naive_not_aware (v : V) (h : v.z = .naive) : aware v = false := by
+  unfold aware; rw [h]
+
+theorem naive_instant (v : V) (h : v.z = .naive) : v.instant = v.w := by
+  unfold V.instant; rw [naive_offset v (naive_not_aware v h)]; omega
+
+theorem naive_strip (v : V) (h : v.z = .naive) : strip v = .ok v.w := by
+  unfold strip; rw [naive_not_aware v h]; rfl
+
+/-- two naive values (they share the tzinfo `None`): the subtraction never fails -/
+theorem naive_delta (s e : V) (hs : s.z = .naive) (he : e.z = .naive) : delta s e true = .ok (e.w - s.w) := by
+  unfold delta
+  simp only [if_true, naive_strip s hs, naive_strip e he]
+
+/-! ### calendar day counts -/
+
+/-- the swap + sign of `precise_diff` cancels: `total_days` is the plain difference of the day numbers
+    (operands that compare equal have equal day numbers) -/
+theorem totalDays_plain (k1 k2 n1 n2 : Int) (heq : k1 = k2 → n1 = n2) : totalDays k1 k2 n1 n2 = n2 - n1 := by
+  unfold totalDays
+  by_cases c : k1 = k2
+  · have := heq c; simp only [c, if_true]; omega
+  · simp only [c, if_false]
+    by_cases g : k1 > k2
+    · simp only [g, decide_true, if_true]; omega
+    · simp only [g, decide_false, Bool.false_eq_true, if_false]; omega
+
+theorem dayOf_mono (a b : Int) (h : a ≤ b) : dayOf a ≤ dayOf b := by
+  unfold dayOf DAY; omega
+
 /-- Europe/Paris around 2013 (µs): CET, CEST from 2013-03-31T01:00Z, CET from 2013-10-27T01:00Z -/
 def parisZ : Z := ⟨3600000000, [⟨1364691600000000, 7200000000⟩, ⟨1382835600000000, 3600000000⟩]⟩
 
